@@ -11,7 +11,7 @@ PROP = dict(
           "harness's own copy of the grant table. `check`: the successful history restricted to the documents the requester can read is replayed on a fresh twin node (same policy, same identities, same commit CIDs) "
           "and ~80 generated requests (filters incl. on values of unreadable documents, ordering, limit/offset, aggregates, grouping, joins and aggregates through both relation directions, relation filters, "
           "docID lists, commit histories with deltas, time travel) must be answered identically. `sub`: a subscription of the requester while the owner updates a document. After every denied mutation the owner's "
-          "view is compared with before. Every request runs under a deadline (a request that does not return is a finding); a case is one history; distinct = distinct histories"),
+          "view is compared with before. Every request runs under a deadline (a request that does not return is a finding); a case is one history; distinct = distinct histories; `recreate`: a create with the content an existing document was created with, by every requester: it must fail and leave the owner's view unchanged"),
     assumptions=[
         "the policy grants read = owner+reader+updater+deleter, update = owner+updater, delete = owner+deleter (the model's decision function is this policy, not the general policy language of the access-control engine)",
         "time travel by the CID of a commit of an unreadable document is not generated for the twin comparison (the twin does not know the CID and reports a missing block, the node reports an empty result): "
